@@ -322,6 +322,10 @@ def m_index_usize(it, a, ty, callee):
 
 def _range_bounds(it, r, n):
     """(start, end) of a Range*/RangeTo/RangeFrom/RangeFull value over a sequence of length n (python ints)"""
+    if not isinstance(r, Adt):
+        if 'RangeFull' in repr(r):
+            return 0, n
+        raise Inconclusive('range value %r' % (r,))
     t = r.ty
     if t.endswith('RangeFull'):
         return 0, n
@@ -531,8 +535,78 @@ def m_vec_extend(it, a, ty, callee):
     return UNIT
 
 
+def ord_cmp(it, ty, x, y):
+    """-1/0/1 as `<ty as Ord>::cmp(x, y)` would answer (forks on symbolic keys)"""
+    from ..values import INT_TYPES
+    ty = ty.strip()
+    if ty.startswith('std::cmp::Reverse<'):
+        return ord_cmp(it, ty[len('std::cmp::Reverse<'):-1], y.fields[0], x.fields[0])
+    if ty in INT_TYPES:
+        if it.branch(it.binop('Lt', x, y)):
+            return -1
+        return 0 if it.branch(it.veq(x, y)) else 1
+    o = it.call('<%s as std::cmp::Ord>::cmp' % ty, [_ref(x), _ref(y)], 'std::cmp::Ordering')
+    return o.variant - 1
+
+
+def m_sort_by_key(it, a, ty, callee):
+    """stable sort (insertion sort; the key closure is interpreted, comparisons fork)"""
+    from .. import mir
+    p, f = a
+    seq = it.load(p)
+    m = re.search(r'::sort_by_key::<(.*)>$', callee, re.S)
+    kty = mir.split_top(m.group(1))[0]
+    items = list(seq.fields)
+    keys = [it.call_value(f, [Ptr(Cell('elem', x))], kty) for x in items]
+    out = []
+    for x, k in zip(items, keys):
+        pos = len(out)
+        while pos > 0 and ord_cmp(it, kty, k, out[pos - 1][1]) < 0:
+            pos -= 1
+        out.insert(pos, (x, k))
+    it.store(p, Seq([x for x, _ in out], 'slice') if p.win is not None else Seq([x for x, _ in out], seq.kind))
+    return UNIT
+
+
+def m_sort_by(it, a, ty, callee):
+    """sort with a comparator closure (insertion sort; for sort_unstable_by elements comparing Equal keep
+    their order, which is one of the orders the unstable sort may produce)"""
+    p, f = a
+    seq = it.load(p)
+    out = []
+    for x in seq.fields:
+        pos = len(out)
+        while pos > 0:
+            o = it.call_value(f, [Ptr(Cell('a', x)), Ptr(Cell('b', out[pos - 1]))], 'std::cmp::Ordering')
+            if o.variant != 0:
+                break
+            pos -= 1
+        out.insert(pos, x)
+    it.store(p, Seq(out, 'slice') if p.win is not None else Seq(out, seq.kind))
+    return UNIT
+
+
+def m_chain(it, a, ty, callee):
+    xs = drain(it, as_lazy(a[0]))
+    second = a[1]
+    if not isinstance(second, IterModel):
+        second = m_into_iter(it, [second], None, callee)
+    ys = drain(it, as_lazy(second))
+    return LazyIter(xs + ys)
+
+
+def m_vec_clear(it, a, ty, callee):
+    v = it.load(a[0])
+    it.store(a[0], Seq((), v.kind))
+    return UNIT
+
+
 def install(it):
     A = it.add_model
+    A(r'std::(vec::Vec|collections::VecDeque)::<.*>::clear', m_vec_clear)
+    A(r'(?:core|std)::slice::<impl \[.*\]>::sort_by_key::<.*>', m_sort_by_key)
+    A(r'(?:core|std)::slice::<impl \[.*\]>::sort(_unstable)?_by::<.*>', m_sort_by)
+    A(r'std::cmp::Reverse', lambda it, a, ty, c: Adt('std::cmp::Reverse', 0, [a[0]]))
     A(r'<std::vec::Vec<.*> as std::convert::AsRef<\[.*\]>>::as_ref', m_vec_deref)
     A(r'std::vec::Vec::<.*>::extend_from_slice', m_vec_extend)
     A(r'<std::vec::Vec<.*> as std::iter::Extend<.*>>::extend::<.*>', m_vec_extend)
@@ -562,6 +636,7 @@ def install(it):
     for k in ('map', 'filter', 'filter_map', 'copied', 'cloned', 'enumerate', 'take'):
         A(r'<.* as std::iter::Iterator>::%s(::<.*>)?' % k, m_stage(k))
     A(r'<.* as std::iter::Iterator>::rev', m_rev)
+    A(r'<.* as std::iter::Iterator>::chain::<.*>', m_chain)
     A(r'<.* as std::iter::Iterator>::next', m_next)
     A(r'<.* as std::iter::Iterator>::collect::<.*>', m_collect)
     A(r'<.* as std::iter::Iterator>::last', m_last)
